@@ -148,6 +148,22 @@ Proof.
     + exact IH.
 Qed.
 
+Lemma Forall_chunks16 : forall l k, length l = 16 * k -> Forall (fun b => length b = 16) (chunks 16 l).
+Proof.
+  intros l k. revert l. induction k; intros l Hl.
+  - destruct l; [constructor|simpl in Hl; lia].
+  - rewrite chunks_cons; [|lia|destruct l; simpl in *; [lia|discriminate]].
+    constructor.
+    + rewrite firstn_length. lia.
+    + apply IHk. rewrite skipn_length. lia.
+Qed.
+
+Lemma N_to_le_length : forall n x, length (N_to_le n x) = n.
+Proof. induction n; intros x; simpl; [reflexivity|]. now rewrite IHn. Qed.
+
+Lemma N_to_be_length : forall n x, length (N_to_be n x) = n.
+Proof. intros. unfold N_to_be. rewrite rev_length. apply N_to_le_length. Qed.
+
 (* ---------------------------------------------------------------------------------------- *)
 (* xor_bytes *)
 
